@@ -215,13 +215,22 @@ def generate(rng, family, package_dir, events=2000, vary=True, shipped_n=False):
             if spec.get("occupants") and "SingleActiveCellOccupancy" in sections and rng.random() < 0.6:
                 set_out.setdefault("SingleActiveCellOccupancy", {})["maximum_number_occupants"] = str(
                     rng.choice([1, 1, 2, -1]))
+    shortage = False
+    if vary and (spec.get("cells") or spec.get("cuboid")) and n >= 5 and rng.random() < 0.12:
+        # deliberately too few event handlers for the explicit pair events: the run is then expected to stop with the
+        # activator's own error the first time a tagger demands more than it owns (never to continue silently)
+        taggers = scenario_module.tagger_sections(sections)
+        for alias, (section, cls) in taggers.items():
+            if cls in ("excluded_cells_tagger", "surplus_cells_tagger"):
+                set_out.setdefault(section, {})["number_event_handlers"] = str(rng.randint(1, 3))
+                shortage = True
     faults = []
     if vary and rng.random() < 0.5:
         for _ in range(rng.randint(1, 3)):
             faults.append({"kind": rng.choice(["scheduler_pickle", "scheduler_pickle", "state_handler_pickle"]),
                            "at_step": rng.randrange(2, max(3, events // 2))})
     scn = {"base": base, "family": family, "set": set_out, "seed": rng.getrandbits(40), "max_events": events,
-           "faults": faults,
+           "faults": faults, "expect_handler_shortage": shortage,
            "end_time": round(rng.choice([3.0, 10.0, 30.0, 100.0, 0.6, 7.05, 30.3, 12.1]) if vary else 50.0, 3),
            "n_roots": n}
     return scn
